@@ -31,6 +31,7 @@ type mismatch struct {
 func c01Oracle(e *gen.Expr, modes []lib.Mode, onlyMode, onlyKind string) (out []mismatch, runs int64, outcomes []string) {
 	src := e.String()
 	vals := henv.Valuations(gen.Vars(e))
+	names := gen.Names(e)
 	refs := make([]ref.Result, len(vals))
 	refNorm := make([]string, len(vals))
 	for i, v := range vals {
@@ -67,7 +68,7 @@ func c01Oracle(e *gen.Expr, modes []lib.Mode, onlyMode, onlyKind string) (out []
 		}
 		for i, v := range vals {
 			env := henv.Make(v)
-			got, err := lib.Run(prog, m.RunEnv(env))
+			got, err := lib.Run(prog, m.RunEnv(env, names))
 			runs++
 			r := refs[i]
 			log := env.L.String()
@@ -85,11 +86,6 @@ func c01Oracle(e *gen.Expr, modes []lib.Mode, onlyMode, onlyKind string) (out []
 				}
 				if onlyMode == "" && i < 4 {
 					outcomes = append(outcomes, g)
-				}
-			default:
-				// both fail: the call log up to the failure must agree as well
-				if log != r.Log {
-					add(mismatch{m.String(), "calls-before-failure", v, fmt.Sprintf("call log %q, reference %q", log, r.Log)})
 				}
 			}
 		}
